@@ -107,7 +107,7 @@ def run_for_property(repo, work, pid, prop, tier, seed, out):
         hs += prop.get("kani_thorough", [])
     if not hs:
         return
-    res = run_harnesses(repo, work, hs)
+    res = run_harnesses(repo, work, hs, timeout=int(prop.get("kani_timeout", 3600)))
     cov = out.evidence["coverage"]
     klist = []
     out.kani_violations = getattr(out, "kani_violations", [])
